@@ -11,6 +11,8 @@ From Coq Require Import List Bool Arith.
 Import ListNotations.
 From JR Require Import Locks Locks_Proofs.
 From JRGen Require Import LockTable.
+From JR Require Skeletons.
+From JRGen Require Extracted.
 
 Theorem c14_table_ok :
   conn_writes_locked lock_rows = true /\ maps_guarded lock_rows = true /\
@@ -54,6 +56,15 @@ Example c14_paths_ok :
                       [LAcq; LOther; LRel] (* connection swap *); [LAcq; LWrite; LWrite; LRel] (* stop: close frame, Close *)] = true.
 Proof. reflexivity. Qed.
 
+(* the functions this property's model is an abstraction of still have the control / locking / shared-state skeleton the
+   model was written against (Skeletons.v, by hand; Extracted.v, regenerated from /repo) *)
+Theorem c14_code_skeletons :
+  JRGen.Extracted.effects_sendRequest = JR.Skeletons.sendRequest /\
+  JRGen.Extracted.effects_nextWriter = JR.Skeletons.nextWriter /\
+  JRGen.Extracted.effects_handleOutChans = JR.Skeletons.handleOutChans.
+Proof. repeat split; reflexivity. Qed.
+
+Print Assumptions c14_code_skeletons.
 Print Assumptions c14_table_ok.
 Print Assumptions c14_write_sites.
 Print Assumptions c14_mutex.
